@@ -59,7 +59,8 @@ def run_shard(desc, R, tier):
                 eval_point({'kind': 'ls', 'x': x, 'p': p}, R)
     elif desc[0] == 'gen':
         _, N, cplx = desc
-        fam = (A.gen_cplx(N) + A.tones_cplx(N)) if cplx else (A.gen_real(N) + A.tones_real(N) + A.pcm(N))
+        fam = (A.gen_cplx(N) + A.tones_cplx(N)) if cplx else (A.gen_real(N) + A.tones_real(N) + A.pcm(N) + A.pcm64(N))
+        fam = fam + A.scaled(fam) + A.strided(fam)
         for name, x in fam:
             for p in range(1, min(N // 2, 20) + 1):
                 eval_point({'kind': 'ls', 'x': x, 'p': p, 'name': name}, R)
@@ -129,8 +130,10 @@ def eval_point(pt, R):
         fn = spectrum.arcovar if meth == 'covariance' else spectrum.modcovar
         R.calls()
         try:
-            a, e = fn(x, p)
+            xin = x.copy()
+            a, e = fn(xin, p)
             a = np.asarray(a)
+            R.check(np.array_equal(xin, x), 'input_unchanged', feats, ptm, xin, x, 'estimator modified its input array')
             ok = a.shape == (p,)
             if ok:
                 g = np.conj(Xc.T) @ (x1 + Xc @ a)
